@@ -396,9 +396,9 @@ func init() {
 		Assume: []string{"model.Validate states which definitions the documentation accepts"},
 		Plan: func(tier string) []core.Lane {
 			if tier == "thorough" {
-				return []core.Lane{{Lane: "plain", Cases: 300000, Shards: 16, MemMB: 6000, TimeoutS: 3600}}
+				return []core.Lane{{Lane: "plain", Cases: 3000000, Shards: 16, MemMB: 6000, TimeoutS: 3600}}
 			}
-			return []core.Lane{{Lane: "plain", Cases: 9000, Shards: 16, MemMB: 6000, TimeoutS: 1200}}
+			return []core.Lane{{Lane: "plain", Cases: 45000, Shards: 16, MemMB: 6000, TimeoutS: 1200}}
 		},
 		Case: c08Case,
 	})
